@@ -18,8 +18,8 @@ fn nontrivial(w: &World) -> bool {
             || l.contains("rename-onto-existing"))
 }
 
-fn excluder(_a: &Active, _w: &mut World, _conn: usize, _c: &Cmd) -> Option<&'static str> {
-    None
+fn excluder(a: &Active, w: &mut World, conn: usize, c: &Cmd) -> Option<&'static str> {
+    super::kf::common_excluder(a, w, conn, c)
 }
 
 fn fixed_cases() -> Vec<Vec<Step>> {
@@ -32,10 +32,10 @@ pub fn spec() -> HistSpec {
         rule: "random histories of 1..40 string/key-space commands over a colliding key pool, compared step by step with the reference model, canonical dump after every refused command and at the end; non-trivial = at least one successful mutation and at least one of {wrong-type hit, boundary index/integer, overflow, non-integer, SET option combination, rename onto an existing key}; distinct by hash of the command list",
         cmd: || crate::gen::with_arity_noise(crate::gen::c01_cmd()),
         max_len: 40,
-        quick_cases: 1500,
-        thorough_cases: 40000,
+        quick_cases: 8000,
+        thorough_cases: 150000,
         nontrivial,
-        probes: vec![],
+        probes: vec![(super::kf::K_EMPTY_KEY, super::kf::probe_empty_key), (super::kf::K_LAX_INT, super::kf::probe_lax_int)],
         excluder,
         fixed_cases,
         label_floors: vec![("wrongtype-hit", 100), ("boundary-index", 50), ("set-options", 100), ("overflow", 10)],
